@@ -139,7 +139,6 @@ def main():
     units = catalog()
     rnd = random.Random(seed * 7919 + 13)
     plan = prop.plan(tier, rnd, units)        # list of jobs: {'entry', 'cases', 'opts' (dict), 'expect_covers': [...]}
-    mod = load_module(ll)
     os.makedirs(os.path.join(VERIF, 'replays'), exist_ok=True)
     os.makedirs(os.path.join(VERIF, 'evidence'), exist_ok=True)
     sample_dir = tempfile.mkdtemp(prefix='llse_q_')
@@ -157,7 +156,7 @@ def main():
         opts = engine.Opts(**job.get('opts', {}))
         log('job %s: %d cases' % (entry, len(cases)))
         t0 = time.time()
-        recs = engine.explore(mod, entry, cases, opts, sample_dir=sample_dir, sample_every=job.get('sample_every', 25))
+        recs = engine.explore(ll, entry, cases, opts, sample_dir=sample_dir, sample_every=job.get('sample_every', 25))
         log('job %s: %d path records in %.1fs' % (entry, len(recs), time.time() - t0))
         casemap = {c['id']: c for c in cases}
         totals['cases'] += len(cases)
@@ -247,7 +246,7 @@ def main():
             seen.add(key)
 
     # ---- differential self-test of the executor on this module (concrete inputs, LLSE vs native)
-    st_ok, st_n, st_msgs = selftest(engine, mod, plan, rnd)
+    st_ok, st_n, st_msgs = selftest(engine, ll, plan, rnd)
     selftest_n = st_n
     for m in st_msgs: problems.append(('selftest', None, None, m))
 
@@ -317,10 +316,15 @@ def main():
         json.dump(ev, f, indent=1)
     log('%s %s: cases=%d paths=%d queries=%d solver=%.1fs violations(new)=%d known=%d problems(hard=%d soft=%d undecided=%d) wall=%.1fs' % (
         pid, tier, totals['cases'], totals['paths'], totals['queries'], totals['solver_s'], len(new_viol), sum(len(v) for v in known_hits.values()), len(hard), len(soft), undec, wall))
-    if hard or too_soft or too_undec:
+    if hard:
         log('MACHINERY-PROBLEM: this run is not a verdict (exit 2)')
         sys.exit(2)
-    sys.exit(1 if new_viol else 0)
+    if new_viol:
+        sys.exit(1)          # every reported violation was reproduced against the native build
+    if too_soft or too_undec:
+        log('MACHINERY-PROBLEM: too many unsupported / undecided paths for a "held" verdict (exit 2)')
+        sys.exit(2)
+    sys.exit(0)
 
 COMMON_ASSUMPTIONS = [
     'LLSE (this repository, llse/engine.py) interprets the LLVM IR rustc emits for the harness crate + numbat + dependencies + std (opt-level 1, fat LTO, overflow-checks and debug-assertions on, panic=abort); its instruction semantics are trusted, guarded by the per-run differential self-test against the native binary and by native replay of every reported model',
